@@ -59,6 +59,12 @@ func ResolveRef(root interface{}, ref *Ref) (*Schema, error) {
 			return sch.Schema, nil
 		}
 		return nil, fmt.Errorf("type: %T: %w", sch, ErrUnknownTypeForReference)
+	case SchemaOrStringArray:
+		// schema-valued entry of "dependencies" of a typed schema
+		if sch.Schema != nil {
+			return sch.Schema, nil
+		}
+		return nil, fmt.Errorf("type: %T: %w", sch, ErrUnknownTypeForReference)
 	case map[string]interface{}:
 		newSch := new(Schema)
 		if err = swag.DynamicJSONToStruct(sch, newSch); err != nil {
